@@ -8,6 +8,8 @@ import (
 	"flag"
 	"fmt"
 	"os"
+	"runtime/debug"
+	"runtime/pprof"
 	"sort"
 	"strings"
 	"sync"
@@ -56,6 +58,7 @@ func (s *stringList) String() string     { return strings.Join(*s, ",") }
 func (s *stringList) Set(v string) error { *s = append(*s, v); return nil }
 
 func main() {
+	debug.SetGCPercent(400)
 	cfg := &Config{}
 	var files, stubs stringList
 	var out string
@@ -75,10 +78,18 @@ func main() {
 	flag.IntVar(&cfg.Samples, "samples", 2, "path samples per worker")
 	flag.BoolVar(&cfg.Trace, "trace", false, "trace calls")
 	flag.BoolVar(&cfg.Reinit, "reinit", false, "re-run package initialisers for every path")
+	flag.BoolVar(&cfg.Domain, "domain", false, "decide single-byte-variable branches by exact domain enumeration before asking the solver")
 	flag.BoolVar(&cfg.MapPerm, "mapperm", false, "explore map iteration orders")
 	flag.StringVar(&timeLimit, "timelimit", "", "wall-clock limit (e.g. 10m)")
 	flag.StringVar(&out, "out", "", "result JSON path")
+	var cpuprof string
+	flag.StringVar(&cpuprof, "cpuprofile", "", "write CPU profile")
 	flag.Parse()
+	if cpuprof != "" {
+		pf, _ := os.Create(cpuprof)
+		pprof.StartCPUProfile(pf)
+		defer pprof.StopCPUProfile()
+	}
 	cfg.Files = files
 	cfg.Stubs = map[string]string{}
 	for _, s := range stubs {
@@ -110,6 +121,7 @@ func main() {
 	for _, v := range res.Violations {
 		fmt.Printf("  violation[%s] %s model=%v choices=%v at %s\n", v.Kind, v.Msg, v.Model, v.Choices, v.Where)
 	}
+	pprof.StopCPUProfile()
 	switch res.Status {
 	case "ok":
 		os.Exit(0)
